@@ -80,7 +80,7 @@ def rule_r1(ctx, rep, sl):
                 rep.add("R1", r["func"], r["construct"],
                         "the child-name list is read at the cursor without a dominating bound check (a cursor-advancing "
                         "statement or call in between kills the bound): IndexError instead of a rule error", r["loc"])
-    rep.floor("cursor reads", 6)
+    rep.floor("cursor reads", 3)
     rep.floor("cursor writes / name-list rebinds", 3)
 
 
@@ -114,7 +114,7 @@ def rule_r2(ctx, rep, vc, sl, mps, pairs):
         if kind_e != kind_c:
             rep.add("R2", p.func.qname, p.append_call, f"fail-fast raises {h.short(p.exc_cls)} but collecting mode records {c}: "
                     f"the two modes report different kinds of error", p.func.loc(p.if_node))
-    rep.floor("children report pairs", 7)
+    rep.floor("children report pairs", 4)
 
 
 def rule_r3(ctx, rep, vc, pairs):
@@ -374,7 +374,11 @@ def rule_r4(ctx, rep, sl, pairs):
             if not ok:
                 for s in ast.walk(fi.node):
                     if isinstance(s, ast.If) and any(x is n for x in ast.walk(s.test)):
-                        inner = [p for p in all_pairs if p.func.qname == q and any(x is p.if_node for x in ast.walk(s))]
+                        # reports this test governs: those inside the statement, and -- for a guard clause (`if flag and ...: return`) --
+                        # those that follow it
+                        from ..condeval import enclosing_ifs as _eifs
+                        inner = [p for p in all_pairs if p.func.qname == q and (any(x is p.if_node for x in ast.walk(s)) or
+                                                                                any(g is s for (g, _b) in _eifs(fi, p.if_node)))]
                         codes = {code_name(p) for p in inner}
                         if codes and codes <= {"MIN_CHOICE_UNMET", "CONTENT_EXPECTED_NONEMPTY"}:
                             ok = True
@@ -435,7 +439,7 @@ def rule_r4(ctx, rep, sl, pairs):
                         if not ok:
                             rep.add("R4", q, c, f"the mixed-content flag is not handed to {tg.func.name} (got `{norm(a) if a is not None else 'nothing'}`)",
                                     fi.loc(c))
-    rep.floor("uses of the mixed-content flag", 6)
+    rep.floor("uses of the mixed-content flag", 3)
     rep.floor("choice-minimum reports", 1)
 
 
@@ -549,8 +553,8 @@ def rule_r5_r6(ctx, rep, sl, pairs):
                             f"requires it to fire exactly when the count is {'below the minimum' if kind == 'MIN' else 'above the maximum'}",
                             fi.loc(g))
                     break
-    rep.floor("occurrence guards", 4)
-    rep.floor("constant spec subscripts", 8)
+    rep.floor("occurrence guards", 2)
+    rep.floor("constant spec subscripts", 4)
 
 
 def rule_r7(ctx, rep, sl):
@@ -626,7 +630,7 @@ def rule_r7(ctx, rep, sl):
         if not ok:
             rep.add("R7", fi.qname, i, "the occurrence counter is incremented on a path on which no alternative was matched since the last "
                     "increment", fi.loc(i))
-    rep.floor("matcher calls in the choice matcher", 3)
+    rep.floor("matcher calls in the choice matcher", 2)
     rep.floor("occurrence increments in the choice matcher", 1)
 
 
